@@ -73,7 +73,9 @@ def dispatchDisk : List String → Option (Obs × Option Obs)
         (if !tame then [("~negzero", "1")] else []) ++
         (if o.single then [("cover", hexList (sortBytes (visible.map (pre ++ ·))))] else [])
     some (m, some sp)
-  | ["disk.find", st, strict, pat, dirok, ents] =>
+  | ["disk.find", st, omask, pat, dirok, ents] =>
+    -- option mask: bit 0 StrictPadding, bit 1 SingleFiles (must not change a pattern lookup)
+    let strict : String := if (int! omask) % 2 == 1 then "1" else "0"
     let st := styleOf st
     let pat := unhex pat
     let entries := parseEntries ents
